@@ -113,6 +113,8 @@ void cm_emit(cm_model_t *m) {
 		if (t->ncal) { AP(m->train_txt, "    calibration:\n"); for (int k = 0; k < t->ncal; k++) AP(m->train_txt, "      - %d\n", t->cal[k]); }
 		if (t->nper) { AP(m->train_txt, "    peripherals:\n"); for (int k = 0; k < t->nper; k++) { AP(m->train_txt, "      - id: %s\n        bit: %d\n", t->per[k].id, t->per[k].bit); if (t->per[k].has_initial) AP(m->train_txt, "        initial: %d\n", t->per[k].initial); } }
 	}
+	if (m->hex_case) { char *txt[3] = {m->board_txt, m->track_txt, m->train_txt};
+		for (int f = 0; f < 3; f++) for (char *c = txt[f]; *c; c++) if (c[0] == '0' && c[1] == 'x') { for (c += 2; (*c >= '0' && *c <= '9') || (*c >= 'a' && *c <= 'f') || (*c >= 'A' && *c <= 'F'); c++) { if (m->hex_case == 1 && *c >= 'a' && *c <= 'f') *c -= 32; if (m->hex_case == 2 && *c >= 'A' && *c <= 'F') *c += 32; } c--; } }
 }
 void cm_install(cm_model_t *m) {
 	cm_emit(m);
